@@ -44,25 +44,45 @@ Proof.
     destruct (gid_of_spec _ _ _ _ G) as (A & B & C). replace (g - 0) with g in C by lia. split; [lia|exact C].
 Qed.
 
+Lemma post_step_length st raw : length (snd (post_step st raw)) = S (length (snd st)).
+Proof.
+  unfold post_step. destruct (seen_get (fst st) (filter keep_char raw)); cbn [snd];
+    rewrite app_length; cbn [length]; lia.
+Qed.
+
+Lemma fold_post_length raws : forall st, length (snd (fold_left post_step raws st)) = (length (snd st) + length raws)%nat.
+Proof.
+  induction raws as [|r raws IH]; intro st; cbn [fold_left length]; [lia|].
+  rewrite IH, post_step_length. lia.
+Qed.
+
+Lemma final_names_length order nm rn : length (final_names order nm rn) = length order.
+Proof.
+  unfold final_names. destruct rn as [m|]; [|apply map_length].
+  unfold production_names. rewrite fold_post_length. cbn [snd length]. rewrite map_length. reflexivity.
+Qed.
+
 (* every glyph-indexed table has one entry per name of the final glyph order *)
-Theorem same_order_same_length order src adv var hv len b : be_build order src adv var hv len = Some b ->
+Theorem same_order_same_length order src adv var hv nm rn b : be_build order src adv var hv nm rn = Some b ->
   length (be_glyf b) = length order /\ length (be_hmtx b) = length order /\ length (be_post b) = length order
   /\ length (be_gvar b) = length order /\ length (be_hvar b) = length order.
 Proof.
-  unfold be_build. destruct (forallb _ order); [|discriminate].
+  unfold be_build. destruct (post_names order nm rn) as [finals|] eqn:P; [|discriminate].
   destruct (sequence _) as [gl|] eqn:S; [|discriminate]. intro H; inversion H; subst.
   cbn [be_glyf be_hmtx be_post be_gvar be_hvar]. rewrite !map_length.
-  apply sequence_length in S. rewrite map_length in S. auto.
+  apply sequence_length in S. rewrite map_length in S.
+  unfold post_names in P. destruct (forallb _ _); [|discriminate]. inversion P; subst.
+  rewrite final_names_length. auto.
 Qed.
 
 (* a component's glyph id is in range and is the position of the glyph the source names *)
-Theorem component_refs_in_range order src adv var hv len b : be_build order src adv var hv len = Some b ->
+Theorem component_refs_in_range order src adv var hv nm rn b : be_build order src adv var hv nm rn = Some b ->
   forall g cs, glyph_at (be_glyf b) g = Some (GComposite cs) ->
   exists name names, nth_error order (N.to_nat g) = Some name /\ src name = SComposite names
     /\ Forall2 (fun nm c => c < N.of_nat (length (be_glyf b)) /\ nth_error order (N.to_nat c) = Some nm) names cs.
 Proof.
-  intro H. pose proof (same_order_same_length _ _ _ _ _ _ _ H) as (L & _).
-  unfold be_build in H. destruct (forallb _ order); [|discriminate]. destruct (sequence _) as [gl|] eqn:S; [|discriminate]. inversion H; subst.
+  intro H. pose proof (same_order_same_length _ _ _ _ _ _ _ _ H) as (L & _).
+  unfold be_build in H. destruct (post_names order nm rn); [|discriminate]. destruct (sequence _) as [gl|] eqn:S; [|discriminate]. inversion H; subst.
   cbn [be_glyf] in *. intros g cs E. unfold glyph_at in E.
   pose proof (sequence_nth _ _ _ _ S E) as M.
   destruct (nth_error order (N.to_nat g)) as [name|] eqn:En.
@@ -75,11 +95,11 @@ Proof.
 Qed.
 
 (* a component naming a glyph outside the final order fails the build (NotInGlyphOrder) *)
-Theorem missing_component_is_error order src adv var hv len name names c :
+Theorem missing_component_is_error order src adv var hv nmf rn name names c :
   In name order -> src name = SComposite names -> In c names -> ~ In c order ->
-  be_build order src adv var hv len = None.
+  be_build order src adv var hv nmf rn = None.
 Proof.
-  intros Hn Hs Hc Hnot. unfold be_build. destruct (forallb _ order); [|reflexivity]. destruct (sequence _) as [gl|] eqn:S; [|reflexivity]. exfalso.
+  intros Hn Hs Hc Hnot. unfold be_build. destruct (post_names order nmf rn) as [finals|]; [|reflexivity]. destruct (sequence _) as [gl|] eqn:S; [|reflexivity]. exfalso.
   apply In_nth_error in Hn. destruct Hn as [k Hk].
   assert (exists x, nth_error gl k = Some x) as [x Hx].
   { apply sequence_length in S. rewrite map_length in S.
@@ -92,20 +112,22 @@ Proof.
   destruct Hc as [->|Hc]; [apply Hnot; eapply nth_error_In; exact Hg|apply IH; exact Hc].
 Qed.
 
-(* every name in an emitted post table fits a Pascal string *)
-Theorem post_names_fit order src adv var hv len b : be_build order src adv var hv len = Some b ->
-  forall n, In n (be_post b) -> len n <= 255.
+(* every FINAL name in an emitted post table fits a Pascal string *)
+Theorem post_names_fit order src adv var hv nm rn b : be_build order src adv var hv nm rn = Some b ->
+  be_post b = final_names order nm rn /\ forall n, In n (be_post b) -> (length n <= 255)%nat.
 Proof.
-  unfold be_build. destruct (forallb _ order) eqn:F; [|discriminate].
+  unfold be_build. destruct (post_names order nm rn) as [finals|] eqn:P; [|discriminate].
   destruct (sequence _) as [gl|]; [|discriminate]. intro H; inversion H; subst. cbn [be_post].
-  intros n Hn. rewrite forallb_forall in F. apply N.leb_le. apply F. exact Hn.
+  unfold post_names in P. destruct (forallb name_fits _) eqn:F; [|discriminate]. inversion P; subst.
+  split; [reflexivity|]. intros n Hn. rewrite forallb_forall in F. specialize (F n Hn).
+  unfold name_fits in F. apply N.leb_le in F. lia.
 Qed.
 
-Theorem long_name_is_error order src adv var hv len n : In n order -> 255 < len n ->
-  be_build order src adv var hv len = None.
+Theorem long_name_is_error order src adv var hv nm rn n :
+  In n (final_names order nm rn) -> (255 < length n)%nat -> be_build order src adv var hv nm rn = None.
 Proof.
-  intros Hn Hl. unfold be_build. destruct (forallb _ order) eqn:F; [|reflexivity]. exfalso.
-  rewrite forallb_forall in F. specialize (F n Hn). apply N.leb_le in F. lia.
+  intros Hn Hl. unfold be_build, post_names. destruct (forallb name_fits _) eqn:F; [|reflexivity]. exfalso.
+  rewrite forallb_forall in F. specialize (F n Hn). unfold name_fits in F. apply N.leb_le in F. lia.
 Qed.
 
 (* ---- FontWork::exec ------------------------------------------------------------------ *)
